@@ -6,7 +6,8 @@ from .. import tables as T
 LEVEL = "proof"
 RULE = ("exhaustive: every pair (table, queries) of sorted multisets of <=2 rows x <=2 queries over 0..4 "
         "(quick) / <=2 x <=3 over 0..6 (thorough), 1-2 chromosomes, 3 modes x keep_empty, None bounds; "
-        "random nested/duplicated/abutting tables <=40 rows. non-trivial = some query overlaps some row "
+        "random nested/duplicated/abutting tables <=40 rows; 15% of the exhaustive and 40% of the random cases build "
+        "their tables as filtered subsets of larger ones (pandas index labels != row positions). non-trivial = some query overlaps some row "
         "of the same chromosome; distinct by hash of (op, input)")
 EXHAUSTIVE = {"quick": True, "thorough": True}
 ASSUMPTIONS = ["tables sorted by (chromosome key, start, end), start < end, coordinates >= 0"]
@@ -56,8 +57,11 @@ def gen_cases(rng, tier):
             b = T.random_table(rng, 8, prefix="b")
             cs = _pair_ops(a, b) + _range_ops(a, [(rng.randint(0, 50), None), (None, rng.randint(0, 50)),
                                                   (rng.randint(0, 30), rng.randint(30, 90))])
+            sub = rng.choice([None, rng.randint(1, 10 ** 6)])
             for c in cs:
                 c["tag"] = "search"
+                if sub:
+                    c["in"]["sub"] = sub
             cases += cs
         return cases
     hi, ka, kb = (4, 2, 2) if tier == "quick" else (6, 2, 3)
@@ -107,12 +111,31 @@ def gen_cases(rng, tier):
         for c in cs:
             c["tag"] = "random"
         cases += cs
+    # the same tables as filtered subsets of larger ones: pandas index labels differ from row positions
+    for c in cases:
+        big = c["tag"] == "random"
+        if rng.random() < (0.4 if big else 0.15):
+            c["in"]["sub"] = rng.randint(1, 10 ** 6)
+            c["tag"] += "-subidx"
     return cases
 
 
 def run_impl(case):
     import numpy as np
     op, i = case["op"], case["in"]
+    sub = i.get("sub")
+
+    class T2:  # the same adapters, tables optionally built as filtered subsets (index labels != positions)
+        rows_of = staticmethod(T.rows_of)
+
+        @staticmethod
+        def ga(rows):
+            return T.ga(rows, sub=sub)
+    return _run(T2, op, i)
+
+
+def _run(T, op, i):
+    import numpy as np
     if op == "intersect":
         return T.rows_of(T.ga(i["a"]).intersection(T.ga(i["b"]), mode=i["mode"]))
     if op == "by_ranges":
